@@ -70,8 +70,18 @@ def run(ctx):
     # RSA keys too short for the algorithm's PSS salt (= hash length): refusing to sign is fine, a token is not
     short = RSAKey.import_key(K.key("rsa1024").as_pem())
     exported += [("PS512", "rsa1024-short", short), ("PS384", "rsa1024-short", short), ("PS256", "rsa1024-short", short), ("RS512", "rsa1024-short", short)]
+    # HMAC keys around the block sizes of the three hash functions (64 / 128 / 128 octets): the MAC is over the raw
+    # key octets whatever their number (RFC 7518 section 3.2, RFC 2104)
+    from joserfc.jwk import OctKey
+    hmac_lens = [14, 16, 31, 32, 33, 48, 63, 64, 65, 96, 127, 128, 129, 200] + ([1000] if ctx.tier != "quick" else [])
+    hmac_keys = []
+    for alg in ("HS256", "HS384", "HS512"):
+        for n in hmac_lens:
+            raw = rng.randbytes(n)
+            hmac_keys.append((alg, n, raw))
+            exported.append((alg, f"oct-{n}-octets", OctKey.import_key(raw)))
     for alg, label, sk in exported:
-        public_jwk = sk.as_dict(private=False)
+        public_jwk = sk.as_dict(private=False) if sk.key_type != "oct" else sk.as_dict()
         for kind in (S.KINDS if ctx.tier != "quick" else ("compact", "flat")):
             payload = b"payload " + label.encode()
             prot, unprot = S.headers_for(rng, alg, kind)
@@ -104,6 +114,13 @@ def run(ctx):
             extra = {"cty": "tëxt/é中", "typ": "J W T", "kid": "k\"q\\"}
             for kind in ("compact", "flat", "general"):
                 cases.append(J.build_valid(rng, alg, kn, J.native_priv(kn), kind, rng.choice(J.PAYLOADS), rng.choice((1, 2, 3)), extra))
+
+    for alg, n, raw in hmac_keys:
+        for kind in ("compact", "flat"):
+            c = J.build_valid(rng, alg, "oct32", raw, kind, b"hmac key of %d octets" % n, 0)
+            c.key = OctKey.import_key(raw)
+            c.note = "ref-signed-hmac-keylen"
+            cases.append(c)
 
     def expect(case, impl):
         if impl[0] != "ok":
